@@ -1129,7 +1129,9 @@ func runC16(r *Rng, n int) {
 			base = "f"
 		}
 		arg := c16GenArg(r)
-		switch k := r.Intn(14); {
+		switch k := r.Intn(16); {
+		case k >= 14:
+			c16GenMWL(r) // when and from what the chain is composed (middleware_lifetime.go)
 		case k >= 11:
 			c16GenMWV(r) // the value dimension (middleware_values.go)
 		case k == 10:
